@@ -194,8 +194,16 @@ func (e *Env) layout(v Variant) concretise.Layout {
 		StructImport:  "ws/" + v.Key + "/" + structDir(v),
 		SupportImport: SupportImport,
 		DepImportBase: "ws/" + v.Key,
-		TargetPkg:     TargetPkg,
+		TargetPkg:     targetName(v),
 	}
+}
+
+// targetName: the package NAME of a separate target package (its directory is always TargetPkg)
+func targetName(v Variant) string {
+	if v.C.SameName {
+		return v.D.Pkg
+	}
+	return TargetPkg
 }
 
 var (
